@@ -35,6 +35,10 @@ type Options struct {
 	ShardNum  int // 0 = 16
 	Databases int // 0 = 16
 	MemLimitK int // ulimit -v in KiB; 0 = 4000000
+	// Wrap is put in front of the server command (e.g. "taskset -c 3": all threads of the server share
+	// one CPU, so the kernel preempts them at arbitrary points); Env is added to its environment.
+	Wrap string
+	Env  []string
 }
 
 func Bin() string {
@@ -122,8 +126,9 @@ func Start(o Options) (*Server, error) {
 		if err != nil {
 			return nil, err
 		}
-		cmd := exec.Command("/bin/sh", "-c", fmt.Sprintf("ulimit -v %d; exec %q -config %q", o.MemLimitK, Bin(), confPath))
+		cmd := exec.Command("/bin/sh", "-c", fmt.Sprintf("ulimit -v %d; exec %s %q -config %q", o.MemLimitK, o.Wrap, Bin(), confPath))
 		cmd.Dir = dir
+		cmd.Env = append(os.Environ(), o.Env...)
 		cmd.Stdout = lf
 		cmd.Stderr = lf
 		cmd.SysProcAttr = &syscall.SysProcAttr{Setpgid: true}
